@@ -148,7 +148,7 @@ class LinuxBootLogin(machine.Initializer, LinuxBoot):
                 self._boot_start = time.monotonic()
 
             self.ch.read_until_prompt(
-                prompt=self.login_prompt, timeout=self.boot_timeout
+                prompt=self.login_prompt, timeout=self._timeout_remaining()
             )
 
             # On purpose do not login immediately as we may get some
